@@ -11,6 +11,7 @@ import Driver.C15
 import Driver.C17
 import Driver.Fed
 import Driver.C10
+import Driver.C14
 open GqlVerif GqlVerif.Driver
 
 /-- dispatch one request; unknown op → `unsupported` -/
@@ -29,6 +30,7 @@ def dispatch (op : String) (args : Json) : Option Json :=
   | "c17.facts" => some (c17facts args)
   | "fed.exec" => some (fedExec args)
   | "c10.check" => some (c10check args)
+  | "c14.sent" => some (c14sent args)
   | "c19.decode" => some (c19decode args)
   | "c05.lex" => some (c05lex args)
   | "c05.limits" => some (c05limits args)
